@@ -24,7 +24,7 @@ ASSUMPTIONS = ["the harness's own evaluation of the same deterministic log-densi
 
 @st.composite
 def histories(draw):
-    cfg = draw(S.sampler_configs(bounds="maybe"))
+    cfg = draw(S.sampler_configs(bounds="maybe", target_kinds=("gauss", "gauss", "cliff", "mix", "plateau")))
     ens = cfg["cls"] == "ensemble"
     ops = []
     for _ in range(draw(st.integers(1, 7))):
